@@ -22,6 +22,7 @@ pub mod c14;
 pub mod c05;
 pub mod c05_reenc;
 pub mod c13;
+pub mod c13_more;
 pub mod c18;
 pub mod c10;
 pub mod c10_record;
